@@ -86,6 +86,15 @@ pub fn cases(tier: Tier) -> Vec<BigCase> {
             v.push(BigCase { name: format!("{}:{}", label, k.name()), origin, movie_ts: 1000, tracks: vec![(k, t)], samples: s, heavy: false });
         }
     }
+    // several tracks with chunks still pending at write_end: the 2^32 boundary is placed at every byte of the region the
+    // final flushes write (origin sweep), so it falls inside / between the flushes of every track in turn
+    for (ka, kb) in [(Kind::Avc, Kind::Aac), (Kind::Hevc, Kind::Ttxt), (Kind::Vp9, Kind::Aac), (Kind::Aac, Kind::Avc)] {
+        let s = vec![(1u32, 4u64, 1000u32, 0i32, true), (2, 3, 48000, 0, true), (1, 5, 10, 2, false), (2, 2, 10, 0, true), (1, 7, 10, 0, false), (2, 6, 10, 0, false)];
+        let total: u64 = s.iter().map(|x| x.1).sum();
+        for k in 0..=(total + 2) {
+            v.push(BigCase { name: format!("pending_flushes:{}+{}:boundary_at_data_byte_{}", ka.name(), kb.name(), k), origin: TWO32 - (FTYP_LEN + 16) - k, movie_ts: 1000, tracks: vec![(ka, 1000), (kb, 48000)], samples: s.clone(), heavy: false });
+        }
+    }
     // cumulative durations around 2^32 in mdhd (ratio 1) and in tkhd/mvhd (ratios 2 and 1/2)
     for k in ALL_KINDS {
         for (rname, m, t) in [("M/T=1", 1000u32, 1000u32), ("M/T=2", 2000, 1000), ("M/T=1/2", 500, 1000)] {
